@@ -20,6 +20,8 @@ import (
 
 var resetClock func()
 
+var racyBuild = os.Getenv("VERIF_RACY") != ""
+
 // Spec describes one property harness.
 type Spec struct {
 	ID string
@@ -64,28 +66,29 @@ type FailRec struct {
 
 // Summary is written by a worker process when it ends.
 type Summary struct {
-	Runs        int            `json:"runs"`
-	Steps       int64          `json:"steps"`
-	Switches    int64          `json:"switches"`
-	Stalls      int64          `json:"stalls"`
-	Idles       int64          `json:"idles"`
-	Tasks       int64          `json:"tasks"`
-	VirtualS    float64        `json:"virtual_s"`
-	Probes      map[string]int `json:"probes"`
-	Hashes      []string       `json:"hashes"`       // distinct event-log hashes of non-trivial runs
-	Nontrivial  int            `json:"nontrivial"`   // runs that were non-trivial
-	Known       map[string]int `json:"known"`        // known findings hit: sig -> count
-	Failures    []FailRec      `json:"failures"`
-	Dirty       bool           `json:"dirty"`        // process should not be reused
-	Done        bool           `json:"done"`         // budget exhausted
-	WallMs      int64          `json:"wall_ms"`
-	MaxSteps    int            `json:"max_steps"`
-	MaxTasks    int            `json:"max_tasks"`
-	Samples     []any          `json:"samples"`
-	EngineErr   string         `json:"engine_err"`
-	Goroutines  int            `json:"goroutines"`
-	NextIndex   int            `json:"next_index"`
-	KnownFirst  map[string]FailRec `json:"known_first"`
+	Runs         int                `json:"runs"`
+	Steps        int64              `json:"steps"`
+	Switches     int64              `json:"switches"`
+	RacySwitches int64              `json:"racy_switches"`
+	Stalls       int64              `json:"stalls"`
+	Idles        int64              `json:"idles"`
+	Tasks        int64              `json:"tasks"`
+	VirtualS     float64            `json:"virtual_s"`
+	Probes       map[string]int     `json:"probes"`
+	Hashes       []string           `json:"hashes"`     // distinct event-log hashes of non-trivial runs
+	Nontrivial   int                `json:"nontrivial"` // runs that were non-trivial
+	Known        map[string]int     `json:"known"`      // known findings hit: sig -> count
+	Failures     []FailRec          `json:"failures"`
+	Dirty        bool               `json:"dirty"` // process should not be reused
+	Done         bool               `json:"done"`  // budget exhausted
+	WallMs       int64              `json:"wall_ms"`
+	MaxSteps     int                `json:"max_steps"`
+	MaxTasks     int                `json:"max_tasks"`
+	Samples      []any              `json:"samples"`
+	EngineErr    string             `json:"engine_err"`
+	Goroutines   int                `json:"goroutines"`
+	NextIndex    int                `json:"next_index"`
+	KnownFirst   map[string]FailRec `json:"known_first"`
 }
 
 func mix(a ...uint64) uint64 {
@@ -118,6 +121,11 @@ func (sp *Spec) config(t *simrt.Tape, tier string) simrt.Config {
 func (sp *Spec) RunOnce(t *testing.T, tape *simrt.Tape, tier string, trace bool) (*simrt.Result, *simrt.Failure) {
 	cfg := sp.config(tape, tier)
 	cfg.Trace = trace
+	if racyBuild && cfg.RacyMean == 0 {
+		// harness built in racy mode (meta.json "racy": true): statement-level switches in a
+		// part of the runs, swarm style (draw 0 = off)
+		cfg.RacyMean = []int{0, 0, 4, 15, 60}[tape.Intn(5)]
+	}
 	res := simrt.Execute(t, cfg, tape, func(r *simrt.Run) {
 		if resetClock == nil {
 			r.EngineError("harness built without -tags verif: timex seam missing")
@@ -242,6 +250,7 @@ func (sp *Spec) batch(t *testing.T, tier string, seed uint64, slot, epoch, start
 		sum.Runs++
 		sum.Steps += int64(res.Steps)
 		sum.Switches += int64(res.Switches)
+		sum.RacySwitches += int64(res.RacySwitches)
 		sum.Stalls += int64(res.Stalls)
 		sum.Idles += int64(res.Idles)
 		sum.Tasks += int64(res.Tasks)
